@@ -31,6 +31,21 @@ if st:
     for r in mut:
         out.append("| %s | %s |" % (r["name"], (r["violations"][0][:90] if r.get("violations") else ("does not apply" if not r["applies"] else "MISSED"))))
     out.append("")
+    ben = st.get("benign") or []
+    if ben:
+        desc = {}
+        for f in glob.glob(os.path.join(V, "benign", "*.patch")):
+            n = os.path.basename(f)[:-6]
+            files = sorted(set(re.findall(r"^\+\+\+ b/(\S+)", open(f).read(), re.M)))
+            desc[n] = ", ".join(files)
+        out += ["### 7.3 Behaviour-preserving edits (`benign/*.patch`): all 20 checks must stay quiet", "",
+                "Each patch compiles, leaves behaviour unchanged (renames, helper extraction, added log lines, control-flow",
+                "restructuring, equivalent API choices) and touches exactly the constructs the rules anchor on. `tools/selftest.py`",
+                "applies each and runs all twenty quick checks; any non-zero exit is a false alarm of the machinery.", "",
+                "| patch | files touched | result |", "|---|---|---|"]
+        for b in ben:
+            out.append("| %s | %s | %s |" % (b["name"], desc.get(b["name"], ""), "does not apply" if not b.get("applies") else ("quiet" if not b.get("alarms") else "FALSE ALARM " + ",".join(b["alarms"]))))
+        out.append("")
 out.append("<!-- GENERATED:END -->")
 p = os.path.join(V, "DESIGN.md")
 s = open(p).read()
